@@ -1079,6 +1079,26 @@ func ruleC07Records(c *Ctx) {
 			}
 		}
 	})
+	// the set itself, or a helper's parameter that is the set at every call
+	var isEvalProps func(v ssa.Value, depth int) bool
+	isEvalProps = func(v ssa.Value, depth int) bool {
+		switch x := v.(type) {
+		case *ssa.UnOp:
+			return x.Op == token.MUL && evalPropsCell != nil && resolveCell(x.X) == evalPropsCell
+		case *ssa.Parameter:
+			args := c.P.ArgsFor(x)
+			if depth == 0 || len(args) == 0 || x.Parent().Parent() != nil {
+				return false
+			}
+			for _, a := range args {
+				if !isEvalProps(a, depth-1) {
+					return false
+				}
+			}
+			return true
+		}
+		return false
+	}
 	recordBlocks := func(fn *ssa.Function, kind string) map[*ssa.BasicBlock]bool {
 		out := map[*ssa.BasicBlock]bool{}
 		core.EachInstr(fn, func(i ssa.Instruction) {
@@ -1097,7 +1117,7 @@ func ruleC07Records(c *Ctx) {
 				}
 			case *ssa.MapUpdate:
 				if kind == "evalprops" && evalPropsCell != nil {
-					if ld, ok := x.Map.(*ssa.UnOp); ok && resolveCell(ld.X) == evalPropsCell {
+					if isEvalProps(x.Map, 3) {
 						if k, ok := x.Value.(*ssa.Const); ok && k.Value != nil && k.Value.String() == "true" {
 							out[x.Block()] = true
 						}
